@@ -42,6 +42,18 @@ CHECKS = {
         design_ref='§7 C08',
         note=NOTE_COMMON + 'The override map is observed through instance._arguments when that attribute exists.',
         technique='TLA+ action properties (TLC) + schedule replay + trace validation'),
+    'C03': dict(
+        category='model_checking',
+        text=('TLC checks the translation state machine (memoised depth-first walk with in-progress marker, shaped like '
+              'CellTranslator._set_cell_to_context) for every dependency graph on N nodes x every entry: Closed (members = '
+              'closure), RejectIffCyclic, NoForeignOutcome, StackDiscipline, Terminates (liveness under weak fairness); the '
+              'pinned-commit variant is a failing census. Binding: every graph TLC enumerates (with the closure / cyclic verdict '
+              'computed by the spec) is realised as a two-sheet workbook with rotating reference forms and translated by the '
+              'real code: member set = closure, slice values = whole-workbook values, cyclic => parser exception; random '
+              'graphs on 5-8 nodes are judged by TLC from recorded events (Trace_C03).'),
+        design_ref='§7 C03',
+        note=NOTE_COMMON + 'Member set read from the generated text; values compared metamorphically (slice vs whole workbook).',
+        technique='TLA+ state machine + invariants/liveness (TLC), graph enumeration replay, trace validation'),
 }
 
 NOT_APPLICABLE = {}
